@@ -50,5 +50,24 @@ def run(prop, path):
         m = __import__(os.path.basename(p)[:-3])
         if hasattr(m, 'REPLAY') and prop in m.REPLAY:
             return m.REPLAY[prop](d, path)
-    log(f'no replay handler for {prop}; replay file kept for inspection')
-    return 2
+    # generic replay: run the property's generator again with the recorded seed and tier and look for the recorded call
+    import random
+    runners = {}
+    for pth in sorted(glob.glob(os.path.join(os.path.dirname(__file__), 'p_*.py'))):
+        runners.update(__import__(os.path.basename(pth)[:-3]).RUNNERS)
+    seed, tier = int(d.get('seed', 1)), d.get('tier', 'quick')
+    st = prepare(prop)
+    res = Result()
+    runners[prop](tier, random.Random(seed * 1000003 + int(prop[1:])), st, res)
+    known, _ = load_known()
+    ids = {k['id'] for k in known if k.get('property') == prop}
+    want = v.get('call')
+    same = [x for x in res.violations if x.get('known_id') not in ids and (want is None or x.get('call') == want)]
+    for x in same[:3]:
+        log('FAILING-INPUT ' + json.dumps({k: x[k] for k in x if k != 'replay'}, default=str)[:600])
+    if same:
+        log(f'VIOLATION property={prop} replay={path}')
+        return 1
+    log(f'the recorded call no longer violates {prop} on the current tree (generator re-run with seed {seed}, tier {tier}: '
+        f'{res.evaluations} evaluations, {len(res.violations)} other findings)')
+    return 0
